@@ -127,6 +127,12 @@ func TestC12_Ramp(t *testing.T) {
 				recStart, a, den = now, 0, 0
 				inRamp = true
 			}
+			switch rapid.IntRange(0, 11).Draw(t, "reqCtx") {
+			case 0: // the client has hung up already / an outer timeout has fired: still a request
+				d.NextCtx = "cancelled"
+			case 1:
+				d.NextCtx = "expired"
+			}
 			passed := d.Start()
 			observe("start")
 			switch {
@@ -620,5 +626,72 @@ func TestC12_EdgeBurst(t *testing.T) {
 			clock.Advance(11*time.Second + time.Microsecond)
 		}
 		vstat.Case(fmt.Sprintf("edge|%v|%v|%d|%d", F, R, G, cycles), cycles >= 5 && G >= 2, []string{"simultaneous-burst-at-the-end-of-recovery"}, map[string]any{"recovery": R.String(), "burst": G, "cycles": cycles})
+	})
+}
+
+// TestC12_Flood: tens of thousands of requests inside ONE recovery period (a busy site), every
+// decision checked against the ramp in exact arithmetic: never above it, and refused only when
+// passing would reach it - however many requests have been counted so far.
+func TestC12_Flood(t *testing.T) {
+	rapid.Check(t, func(t *rapid.T) {
+		F := time.Second
+		R := rapid.SampledFrom([]time.Duration{10 * time.Second, 30 * time.Second}).Draw(t, "recovery")
+		clock.Freeze(cbh.Epoch)
+		defer clock.Unfreeze()
+		handler := http.HandlerFunc(func(w http.ResponseWriter, r *http.Request) {
+			w.Header().Set("X-Handler", "1")
+			st, _ := strconv.Atoi(r.Header.Get("X-Want"))
+			w.WriteHeader(st)
+		})
+		cb, err := cbreaker.New(handler, "NetworkErrorRatio() > 0.5", cbreaker.FallbackDuration(F), cbreaker.RecoveryDuration(R), cbreaker.CheckPeriod(time.Millisecond))
+		if err != nil {
+			t.Fatalf("%v", err)
+		}
+		req200 := httptest.NewRequest("GET", "http://x/", nil)
+		req200.Header.Set("X-Want", "200")
+		req502 := httptest.NewRequest("GET", "http://x/", nil)
+		req502.Header.Set("X-Want", "502")
+		do := func(r *http.Request) bool {
+			rec := httptest.NewRecorder()
+			cb.ServeHTTP(rec, r)
+			return rec.Header().Get("X-Handler") == "1"
+		}
+		for i := 0; i < 20 && !strings.Contains(cb.String(), "state=tripped"); i++ {
+			do(req502)
+			clock.Advance(2*time.Millisecond + time.Microsecond)
+		}
+		if !strings.Contains(cb.String(), "state=tripped") {
+			t.Fatalf("INFRA: could not trip the breaker")
+		}
+		clock.Advance(F + time.Millisecond + time.Microsecond)
+		var a, den int64
+		var e time.Duration
+		total := 0
+		phases := rapid.IntRange(2, 4).Draw(t, "phases")
+		for p := 0; p < phases && e < R; p++ {
+			n := rapid.SampledFrom([]int{5000, 20000, 40000}).Draw(t, "flood")
+			for i := 0; i < n; i++ {
+				passed := do(req200)
+				total++
+				if passed {
+					a++
+					if s, near := cmp(2*int64(R), a, int64(e), a+den); s > 0 && !near {
+						t.Fatalf("recovery of %v, %v into it: request #%d passed, which brings the fraction passed to %d/%d, above the ramp %.6f", R, e, total, a, a+den, 0.5*float64(e)/float64(R))
+					}
+				} else {
+					if s, near := cmp(2*int64(R), a+1, int64(e), a+den+1); s < 0 && !near {
+						t.Fatalf("recovery of %v, %v into it: request #%d refused with %d passed / %d refused so far, although passing it gives %d/%d, below the ramp %.6f", R, e, total, a, den, a+1, a+den+1, 0.5*float64(e)/float64(R))
+					}
+					den++
+				}
+			}
+			stepD := time.Duration(rapid.Int64Range(int64(R)/20, int64(R)/3).Draw(t, "step"))/time.Millisecond*time.Millisecond + time.Microsecond
+			if e+stepD >= R {
+				break
+			}
+			clock.Advance(stepD)
+			e += stepD
+		}
+		vstat.Case(fmt.Sprintf("flood|%v|%d|%d|%d", R, total, a, den), total >= 32768 && a > 0, []string{"flood-in-one-recovery"}, map[string]any{"recovery": R.String(), "requests": total, "passed": a, "refused": den})
 	})
 }
